@@ -43,8 +43,7 @@ class BuiltinMixin:
 
     def b_spec_set_of(self, fr, f, args, kw, node):
         seq = self.as_seq(args[0])
-        v = z3.Const('v!set', Val)
-        return SSet(z3.Lambda([v], z3.Contains(seq.t, z3.Unit(v))))
+        return SSet(self.setof(seq.t), src=seq)
 
     def b_spec_forall(self, fr, f, args, kw, node):
         """forall(lambda v, w: P(v, w)): prover-only quantifier over all values (loop invariants, lemmas)"""
@@ -204,7 +203,10 @@ class BuiltinMixin:
     def b_set(self, fr, f, args, kw, node):
         if not args:
             return SSet(z3.K(Val, z3.BoolVal(False)))
-        raise Unsupported('set(iterable)')
+        if isinstance(args[0], SSet):
+            return args[0]
+        seq = self.as_seq(args[0])
+        return SSet(self.setof(seq.t), src=seq)
 
     def b_range(self, fr, f, args, kw, node):
         if len(args) == 1:
